@@ -1,7 +1,11 @@
 (* lsp4spl/src/features/references.rs - textDocument/references, /rename, /prepareRename.
 
    `find_referenced_identifiers` chooses one of three hand-written tree walks by the kind of the
-   entry the cursor's NAME resolves to in the context (local table first); the walks collect
+   entry the cursor's name resolves to (`resolve`: in a procedure context with
+   `features::lookup_table_for` = Cursor.lookup_for - the local table first unless the identifier
+   stands in a global position, i.e. behind `proc`, `type`, `:` or `of`; in a type context in the
+   global table); rename and prepareRename answer null when that entry is predefined
+   (`is_predefined`; /repo b909979 - before, the spelling `int` was tested).  The walks collect
    `Identifier` nodes BY NAME and shift their token ranges by every `Reference` offset on the way
    up.  The identifiers are then turned into text ranges with the whole token vector
    (`Identifier::to_text_range(&doc.tokens)`, a possible index panic = RFail).
@@ -191,18 +195,28 @@ Definition find_vars (name proc_name : text) (p : program) : list ident :=
   | None => []
   end.
 
-(* ---- find_referenced_identifiers ---- *)
-Definition find_referenced_identifiers (name : text) (ctx : gentry) (p : program) (g : gtable) : list ident :=
+(* ---- resolve / is_predefined / find_referenced_identifiers ---- *)
+(* references::resolve: "looks the identifier up as the compiler binds it: globally in a global
+   position, in the enclosing procedure first otherwise" *)
+Definition resolve (name : text) (ctx : gentry) (g : gtable) (gp : bool) : option entry :=
+  match ctx with
+  | GProcE pe => lookup_for g (pe_local pe) gp name
+  | GTypeE _ => option_map entry_of_g (lookup g name)
+  end.
+
+(* resolve(..).map_or(false, |entry| entry.is_default()) *)
+Definition is_predefined (name : text) (ctx : gentry) (g : gtable) (gp : bool) : bool :=
+  match resolve name ctx g gp with Some e => is_default e | None => false end.
+
+Definition find_referenced_identifiers (name : text) (ctx : gentry) (p : program) (g : gtable) (gp : bool) : list ident :=
   match ctx with
   | GProcE pe =>
-      if text_eqb (id_val (pe_name pe)) name then find_procs name p
-      else
-        match lt_lookup (Some (pe_local pe)) (Some g) name with
-        | Some (EntType _) => find_types name p
-        | Some (EntProc _) => find_procs name p
-        | Some (EntVar _) | Some (EntParam _) => find_vars name (id_val (pe_name pe)) p
-        | None => []
-        end
+      match resolve name ctx g gp with
+      | Some (EntType _) => find_types name p
+      | Some (EntProc _) => find_procs name p
+      | Some (EntVar _) | Some (EntParam _) => find_vars name (id_val (pe_name pe)) p
+      | None => []
+      end
   | GTypeE _ => find_types name p
   end.
 
@@ -221,14 +235,14 @@ Definition range_eqbN (a b : N * N) : bool := (fst a =? fst b)%N && (snd a =? sn
 Definition ident_eqb (a b : text * (N * N)) : bool :=
   text_eqb (fst a) (fst b) && range_eqbN (snd a) (snd b).
 
-(* the cursor frame with the identifier's own byte range passed on *)
+(* the cursor frame with the identifier's own byte range and `cursor.is_global_position()` passed on *)
 Definition with_cursor_r {A} (d : doc) (line col : N)
-           (k : text * (N * N) -> gentry -> res (option A)) : res (option A) :=
+           (k : text * (N * N) -> gentry -> bool -> res (option A)) : res (option A) :=
   do c <- doc_cursor d line col;
   match cursor_ident c with
   | Some id =>
       match c_ctx c with
-      | Some ctx => k id ctx
+      | Some ctx => k id ctx (is_global_position c)
       | None => ROk None
       end
   | None => ROk None
@@ -236,24 +250,30 @@ Definition with_cursor_r {A} (d : doc) (line col : N)
 
 (* references::find *)
 Definition references (d : doc) (line col : N) : res (option (list loc)) :=
-  with_cursor_r d line col (fun id ctx =>
-    do rs <- text_ranges (d_toks d) (find_referenced_identifiers (fst id) ctx (d_ast d) (d_table d));
+  with_cursor_r d line col (fun id ctx gp =>
+    do rs <- text_ranges (d_toks d) (find_referenced_identifiers (fst id) ctx (d_ast d) (d_table d) gp);
     ROk (Some (map (fun i => pos_range (snd i) (d_text d)) (filter (fun i => negb (ident_eqb i id)) rs)))).
 
-(* references::rename: the ranges of the text edits *)
+(* references::rename: the ranges of the text edits; null for predefined names *)
 Definition rename (d : doc) (line col : N) : res (option (list loc)) :=
-  with_cursor_r d line col (fun id ctx =>
-    if text_eqb (fst id) s_int then ROk None
+  with_cursor_r d line col (fun id ctx gp =>
+    if is_predefined (fst id) ctx (d_table d) gp then ROk None
     else
-      do rs <- text_ranges (d_toks d) (find_referenced_identifiers (fst id) ctx (d_ast d) (d_table d));
+      do rs <- text_ranges (d_toks d) (find_referenced_identifiers (fst id) ctx (d_ast d) (d_table d) gp);
       ROk (Some (map (fun i => pos_range (snd i) (d_text d)) rs))).
 
-(* references::prepare_rename: needs no context *)
+(* references::prepare_rename: the predefined test only if there is a context; without a context
+   (cursor outside every named declaration with a table entry) it answers with the identifier's range *)
 Definition prepare_rename (d : doc) (line col : N) : res (option loc) :=
   do c <- doc_cursor d line col;
   match cursor_ident c with
   | Some (name, r) =>
-      if text_eqb name s_int then ROk None else ROk (Some (pos_range r (d_text d)))
+      if (match c_ctx c with
+          | Some ctx => is_predefined name ctx (d_table d) (is_global_position c)
+          | None => false
+          end)
+      then ROk None
+      else ROk (Some (pos_range r (d_text d)))
   | None => ROk None
   end.
 
